@@ -8,7 +8,7 @@ names = sys.argv[2:]
 for h in mod.HARNESSES:
     if names and h.__name__ not in names: continue
     r = run.run_harness(h, verbose=True)
-    print(h.__name__, 'paths', r.paths, 'killed', r.killed, 'wall %.2f' % r.wall_s, r.stats)
+    print(h.__name__, 'paths', r.paths, 'witnessed', r.witnessed_paths, 'killed', r.killed, 'wall %.2f' % r.wall_s, r.stats)
     for u in r.unsupported: print('   UNSUPPORTED', u)
     for e in r.errors: print('   ERROR', e)
     for o in r.obligations:
